@@ -68,7 +68,7 @@ class Check(PropertyCheck):
                   "closes the connection (excluded by the causality assumption). The discard of CR LF after chunk data is matched "
                   "byte by byte in the model (h11 matches as many bytes as are there — same result under the drain loop). No "
                   "compiled-model tie for C02 (has_model=False): the functions the machine uses (extractLines, head parsing, framing "
-                  "decision) are tied in C01; the chunk_header regex transcription is not tied by a driver. "
+                  "decision, the chunk_header regex via the chunkhdr op) are tied in C01. "
                   "Out of scope by design: tunnel payload after CONNECT, request streaming (head forwarded before the body is judged), "
                   "an origin that drops a keep-alive connection without announcing it (races with the next request).")
     technique = "Lean 4 proof (feed_append for the drain loop + generic seg_independent) + schedule-vs-whole oracle on the real layer"
